@@ -300,6 +300,21 @@ class Recorder(object):
             out[NK - 1] = -7       # a key that was never stored
         return out
 
+    def keyarg(self, o, ks):
+        """the collection of keys handed to popkeys: a list, a tuple, a one-shot iterator or the key view of a dict"""
+        keys = [self.K(k) for k in ks]
+        how = o.get('how', 'list')
+        if how == 'iter':
+            return iter(keys)
+        if how == 'tuple':
+            return tuple(keys)
+        if how == 'view' and len(set(ks)) == len(ks):
+            try:
+                return dict.fromkeys(keys).keys()
+            except TypeError:
+                return keys
+        return keys
+
     def read(self, h):
         if self.cached:
             return dict(dict.items(h))
@@ -380,9 +395,9 @@ class Recorder(object):
                     k, v = h.popitem()
                     e['rs'] = [self.kid(k), self.vid(v, self.kid(k))]
                 elif op == 'popkeys':
-                    e['rs'] = [self.vid(v, k) for v, k in zip(h.popkeys([K(k) for k in e['ks']]), e['ks'])]
+                    e['rs'] = [self.vid(v, k) for v, k in zip(h.popkeys(self.keyarg(o, e['ks'])), e['ks'])]
                 elif op == 'popkeysd':
-                    e['rs'] = [self.vid(v, k) for v, k in zip(h.popkeys([K(k) for k in e['ks']], V(e['d'])), e['ks'])]
+                    e['rs'] = [self.vid(v, k) for v, k in zip(h.popkeys(self.keyarg(o, e['ks']), V(e['d'])), e['ks'])]
                 elif op == 'setdefault':
                     e['ri'] = self.vid(h.setdefault(K(e['k']), V(e['v'])), e['k'])
                 elif op == 'update':
